@@ -1,5 +1,6 @@
 import Tea.Proofs.Modes
 import Tea.Proofs.Tty
+import Tea.Proofs.LifecycleExec
 /-
 C17 — Exec hands the terminal over and takes it back (mode part; termios in section 4).
 
@@ -28,6 +29,8 @@ Vocabulary (Tea/Proofs/Modes.lean, restated below):
 What the code does NOT re-establish after an Exec - and the theorems say so exactly: the mouse
 modes stay off (a program that had enabled the mouse has no mouse after an Exec) and the
 cursor is hidden even if the program had shown it (ShowCursor before the Exec is forgotten).
+Section 5 is about the Exec as steps of the event-loop goroutine in the Lifecycle LTS (the read loop,
+the renderer's listen goroutine, signals, the callers it spawns, any number of Execs).
 Only property theorems live here.
 -/
 namespace Tea.Props.C17
@@ -273,6 +276,164 @@ example :
 /-- outside the scope (RestoreTerminal without a release, see
 `Tea.Props.C05.C05_termios_double_restore_misuse`): the next command finds the raw settings -/
 example : (runTty (· + 100) true 7 [.exec, .restoreOnly, .exec] .quit).during = [7, 107] := by
+  decide
+
+end Tea.Props.C17
+
+/-! ### 5. Exec in the lifecycle LTS
+
+The sections above are about the BYTES an Exec writes and the line discipline.  This one is about
+the Exec as a sequence of steps of the event-loop goroutine among all the other goroutines, in the
+Lifecycle LTS (`Tea/Runtime/Lifecycle.lean`): an Exec message (a Send caller of kind `exec`) is
+received by the loop, which then runs ReleaseTerminal (`exRelCancel`, `exRelWaitRead` /
+`exRelWaitTimeout`, `exRelRenderer`, `exRelRestore`), waits for the command (`execCmd`, user
+code), runs RestoreTerminal (`exResReader`, `exResRenderer`, `exResSpawn`) and hands the message to
+Update (`callback`).  Helper lemmas: `Tea/Proofs/LifecycleExec.lean`. -/
+namespace Tea.Props.C17
+open Tea.Runtime.Life
+
+/-- the fault-free Exec of the message of sender `e`; the two callers it appends -/
+theorem lts_execSchedule_def (e : Nat) : execSchedule e =
+    [.elRecvSender e, .exRelCancel, .exRelWaitTimeout, .exRelRenderer, .exRelRestore, .execCmdReturns,
+     .exResReader, .exResRenderer, .exResSpawn] := rfl
+
+theorem lts_execCallers_def :
+    execCallers = [{ kind := .user, pc := .blocked }, { kind := .user, pc := .blocked }] := rfl
+
+/-- **THE ROUND TRIP IN THE LTS.**  From every reachable state with the loop at its `select`, the
+renderer listening and the Exec message of sender `e` waiting in Send, the fault-free Exec
+schedule is enabled step by step.  WHILE THE COMMAND RUNS (`sm`, after the first five steps): the
+renderer's listen goroutine is stopped and writes nothing (`tick` is not enabled), the terminal has
+been restored (no mode sequence outstanding, one more `restoreTerminalState`), signals are ignored
+(no signal step exists), and the input is left to the command: a cancelable reader has been asked to
+stop.  AT THE END (`sf`, Update has the execMsg): there is a read loop iff the program has an
+input, the renderer is listening again, signals are OBEYED - this is the value before the Exec
+iff signals were obeyed before: a WithoutSignals program obeys signals from its first Exec on, see
+`C18_ignored_partial` -, the mode sequences have been written again, and exactly two callers have
+been appended (the goroutines that Send the repaint / size message and the callback's message),
+the sender of the Exec message having returned. -/
+theorem C17_lts_exec_roundtrip (c : Config) (s : St) (hr : Reachable c s) (hsel : s.el = .select)
+    (hli : s.listen = .idle) (e : Nat) (cl : Caller) (he : s.senders[e]? = some cl)
+    (hk : cl.kind = .exec) (hb : cl.pc = .blocked) :
+    ∃ sm sf, runLabels s ((execSchedule e).take 5) = some sm ∧
+      runLabels sm ((execSchedule e).drop 5) = some sf ∧ runLabels s (execSchedule e) = some sf ∧
+      -- while the command runs
+      (sm.el = .execCmd ∧ sm.listen = .stopped ∧ step sm .tick = none ∧ sm.modesDirty = false ∧
+       sm.restores = s.restores + 1 ∧ sm.ignoreSignals = true ∧ (∀ b, step sm (.signal b) = none) ∧
+       (s.reader ≠ .absent → s.cancelable = true → sm.readerCancelRequested = true)) ∧
+      -- when Update receives the execMsg
+      (sf.el = .callback ∧ (sf.reader = .reading ↔ s.withInput = true) ∧ sf.listen = .idle ∧
+       sf.ignoreSignals = false ∧ (s.ignoreSignals = false → sf.ignoreSignals = s.ignoreSignals) ∧
+       sf.modesDirty = true ∧
+       sf.senders = s.senders.set e { cl with pc := .returned } ++ execCallers ∧
+       sf.senders.length = s.senders.length + 2) := by
+  obtain ⟨sm, sf, h1, h2, h3, hd, ha⟩ := exec_roundtrip hr hsel hli he hk hb
+  refine ⟨sm, sf, h1, h2, h3,
+    ⟨hd.el, hd.listen, hd.noTick, hd.modes, hd.restores, hd.signals.1, hd.signals.2, hd.cancel⟩,
+    ⟨ha.el, ha.reader, ha.listen, ha.signals, fun h => by rw [ha.signals, h], ha.modes, ha.senders, ?_⟩⟩
+  rw [ha.senders]
+  simp [execCallers]
+
+/-- **THE CALLBACK'S MESSAGE IS DELIVERED AT MOST ONCE.**  (1) The loop receives the message of a
+caller only while that caller is blocked in Send, and the caller has returned afterwards.  (2) A
+caller that has returned is never touched again, along any schedule, and the loop can never receive
+from it again: each of the callers an Exec appends - the callback's message among them - is
+delivered at most once.  (3) `exResSpawn` appends exactly those two callers, blocked.  (4) And they
+never hang: once the context is cancelled (the first thing every shutdown does), hence once Run has
+returned, a caller that is still blocked returns by a step of its own (C13). -/
+theorem C17_lts_callback_once :
+    (∀ (s s' : St) (j : Nat), step s (.elRecvSender j) = some s' →
+      ∃ cl, s.senders[j]? = some cl ∧ cl.pc = .blocked ∧
+        s'.senders[j]? = some { cl with pc := .returned }) ∧
+    (∀ (s : St) (j : Nat) (cl : Caller), s.senders[j]? = some cl → cl.pc = .returned →
+      ∀ ls s', runLabels s ls = some s' →
+        s'.senders[j]? = some cl ∧ step s' (.elRecvSender j) = none) ∧
+    (∀ (s s' : St), step s .exResSpawn = some s' → s'.senders = s.senders ++ execCallers) ∧
+    (∀ (c : Config) (s : St), Reachable c s → s.ctxDone = true ∨ s.runPc = .returned →
+      ∀ (j : Nat) (cl : Caller), s.senders[j]? = some cl → cl.pc = .blocked →
+        ∃ s', step s (.sendAbort j) = some s' ∧ s'.senders[j]? = some { cl with pc := .returned }) := by
+  refine ⟨fun s s' j hs => elRecvSender_once hs, ?_, ?_, ?_⟩
+  · intro s j cl hj hp ls s' hrun
+    have h := sender_returned_runLabels ls hrun hj hp
+    exact ⟨h, elRecvSender_returned_none h hp⟩
+  · intro s s' hs
+    simp only [step] at hs
+    split at hs
+    · cases hs; rfl
+    · cases hs
+  · intro c s hr h j cl hj hb
+    have hctx : s.ctxDone = true := by
+      rcases h with h | h
+      · exact h
+      · exact ((inv_ctx hr).returned h).1
+    exact ⟨_, sendAbort_enabled hj hb hctx, getElem?_set_self_of hj⟩
+
+/-- one Exec followed by its Update and View: the loop is back at its `select` -/
+theorem lts_execRound_def (e : Nat) :
+    execRound e = execSchedule e ++ [.callbackReturns, .elCmdHandOver, .viewReturns] := rfl
+
+/-- **ANY NUMBER OF CONSECUTIVE EXECS IN THE LTS.**  From every reachable state with the loop at its
+`select`, the renderer listening and the command dispatcher alive, for EVERY list `es` of distinct
+Exec messages waiting in Send: the Execs can be run one after the other (each with its Update and
+View; by induction on the number), and after the last one the loop is again at its `select` with the
+renderer listening and the dispatcher alive - the hypotheses of `C17_lts_exec_roundtrip` hold again -,
+signals are obeyed, the mode sequences are written, there is a read loop iff the program has an
+input, every Exec has restored the terminal once and has appended its two callers, and every
+Exec message has been received exactly once (its sender has returned). -/
+theorem C17_lts_repeat (c : Config) (s : St) (hr : Reachable c s) (hsel : s.el = .select)
+    (hli : s.listen = .idle) (hd : s.dispAlive = true) (es : List Nat) (hne : es ≠ []) (hnd : es.Nodup)
+    (hall : ∀ e ∈ es, ∃ cl, s.senders[e]? = some cl ∧ cl.kind = .exec ∧ cl.pc = .blocked) :
+    ∃ sf, runLabels s (es.flatMap execRound) = some sf ∧
+      sf.el = .select ∧ sf.listen = .idle ∧ sf.dispAlive = true ∧
+      sf.ignoreSignals = false ∧ sf.modesDirty = true ∧ (sf.reader = .reading ↔ sf.withInput = true) ∧
+      sf.senders.length = s.senders.length + 2 * es.length ∧ sf.restores = s.restores + es.length ∧
+      (∀ e ∈ es, ∃ cl, sf.senders[e]? = some cl ∧ cl.kind = .exec ∧ cl.pc = .returned) := by
+  obtain ⟨sf, h1, h2, h3, h4, h5, h6⟩ :=
+    exec_rounds es hr ⟨hsel, hli, hd⟩ hnd hall (fun h => absurd h hne)
+  exact ⟨sf, h1, h2.el, h2.listen, h2.disp, h3.signals, h3.modes, h3.reader, h4, h5, h6⟩
+
+/-! non-vacuity -/
+
+/-- a program with a cancelable input, a signal handler, a resize listener, three Exec messages and
+a Quit() caller -/
+def cfgX : Config :=
+  { cancelable := true, withSignalHandler := true, ignoreSignals := false, withResize := true,
+    withInitCmd := false, withInput := true, senders := [.exec, .exec, .exec, .quit], waiters := 0 }
+
+/-- the hypotheses of `C17_lts_exec_roundtrip` / `C17_lts_repeat` hold when the loop begins and the
+three Exec messages have been sent -/
+example : (runLabels (init cfgX) [.sendCall 0, .sendCall 1, .sendCall 2]).map
+    (fun s => (s.el, s.listen, s.dispAlive, s.senders.map (·.pc))) =
+    some (.select, .idle, true, [.blocked, .blocked, .blocked, .notCalled]) := by decide
+
+/-- one Exec: while the command runs, and when Update has the message -/
+example :
+    (runLabels (init cfgX) ([.sendCall 0] ++ (execSchedule 0).take 5)).map
+      (fun s => (s.el, s.listen, (step s .tick).isSome, s.modesDirty, s.readerCancelRequested)) =
+      some (.execCmd, .stopped, false, false, true) ∧
+    (runLabels (init cfgX) ([.sendCall 0] ++ execSchedule 0)).map
+      (fun s => (s.el, s.reader, s.listen, s.modesDirty, s.senders.map (·.pc))) =
+      some (.callback, .reading, .idle, true, [.returned, .notCalled, .notCalled, .notCalled, .blocked, .blocked]) := by
+  decide
+
+/-- three consecutive Execs (in the order 2, 0, 1), then the Quit(): six callers appended, three
+restores by the Execs and one by Run's shutdown, Run returns nil -/
+example :
+    (runLabels (init cfgX) ([.sendCall 0, .sendCall 1, .sendCall 2] ++ [2, 0, 1].flatMap execRound)).map
+      (fun s => (s.el, s.listen, s.ignoreSignals, s.restores, s.senders.length)) =
+      some (.select, .idle, false, 3, 10) ∧
+    (runLabels (init cfgX) ([.sendCall 0, .sendCall 1, .sendCall 2] ++ [2, 0, 1].flatMap execRound ++
+      [.sendCall 3, .elRecvSender 3, .runTail, .shCancel none, .dispExit, .sigExit, .resizeExit,
+       .shHandlers none, .shReader none, .readerCanceled, .shWaitRead none, .shRenderer none,
+       .shRestore none, .runReturn])).map
+      (fun s => (s.runPc, s.runErr, s.restores, s.modesDirty)) = some (.returned, .nil, 4, false) := by
+  decide
+
+/-- the callback's message (caller 4) is delivered once: after the loop has received it the step does
+not exist any more -/
+example : (runLabels (init cfgX) ([.sendCall 0] ++ execRound 0 ++ [.elRecvSender 4])).map
+    (fun s => (s.el, s.senders.map (·.pc), (step s (.elRecvSender 4)).isSome)) =
+    some (.callback, [.returned, .notCalled, .notCalled, .notCalled, .returned, .blocked], false) := by
   decide
 
 end Tea.Props.C17
